@@ -567,7 +567,7 @@ def _run_strong_sim(
         sim_params.num_mid_measurements = sum(
             1
             for n in dag.op_nodes()
-            if n.op.name == "barrier" and str(getattr(n.op, "label", "")).strip().upper() == "SAMPLE_OBSERVABLES"
+            if n.op.name == "barrier" and str(getattr(n.op, "label", "")).upper() == "SAMPLE_OBSERVABLES"
         )
 
     # Observables set up their own trajectory storage
